@@ -55,6 +55,18 @@ CHECKS = {
         "note": NOTE_COMMON + " kirin's const.Propagate/Fold machinery that decides WHEN folding happens is exercised, not verified.",
         "technique": "Coq proofs parametric in the tracer (incl. permutation invariance) + exhaustive small-arity correspondence",
     },
+    "C06": {
+        "text": "Theorem: if the injection rule has a case for every lookup kind then, for EVERY program (table of methods), environment, "
+                "expression and fuel, the plain interpreter on the injected program computes the injected image of what the spec-carrying "
+                "interpreter computes on the original - at any call depth, through recursion and through closures capturing looked-up values; "
+                "closure-free results are literally equal; names absent from the spec fail on both routes; a kind without a case provably breaks. "
+                "The rule's coverage of the four kinds (and that absent names are left in place) is reflected from the live code on every run "
+                "and the totality lemma re-proved. Tie: generated tables of 2-4 @move kernels (recursive subroutines with depth parameters, "
+                "closures returned and called, all four lookup kinds, absent names in live positions) compiled with arch_spec (fold on/off) and "
+                "called through Method.__call__ vs the unspecialised kernels under ArchSpecInterpreter vs the Coq model.",
+        "note": NOTE_COMMON + " kirin's CallGraphPass cloning and the Fold that follows injection are exercised, not verified.",
+        "technique": "Coq proof by fuel induction with an injection map on values (closures) + reflected rule table + differential",
+    },
     "C11": {
         "text": "Theorems: every path the tracer model yields is well formed (invariant proved for all op sequences) and reversal preserves "
                 "well-formedness. wfb is evaluated in Coq on every path produced by generated kernels, library kernels and their reversals; a Python "
